@@ -91,7 +91,7 @@ def random_spec(rng, shapes=None, strategy=None, plugins=None):
 
 STEP_WEIGHTS = {
     'add': 5, 'set': 8, 'set_same': 2, 'set_null': 2, 'del': 3, 'readd': 2, 'setrel': 3, 'link': 3, 'unlink': 2,
-    'flush': 5, 'commit': 5, 'rollback': 1, 'query': 1, 'expire': 0, 'manual_tx': 0,
+    'flush': 5, 'commit': 5, 'rollback': 1, 'query': 1, 'expire': 0, 'manual_tx': 0, 'sp_begin': 0, 'sp_commit': 0,
 }
 
 
@@ -106,6 +106,8 @@ def random_program(rng, spec, nsteps, weights=None, nkeys=3, nvals=4):
     class_of = {}     # (root class, pk) -> concrete class first used (a key keeps its class for life)
     shadow = {}       # (cls, pk, attr) -> val
     prog = []
+    deleted_uncommitted = set()
+    sp_open = [0]
     deleted_unflushed = set()   # root keys deleted since the last flush: re-adding them now would be a
                                 # "row switch" (delete + insert of one key in one flush), which is the open
                                 # finding F-ROWSWITCH; the random stream avoids it (a pinned corpus case keeps it)
@@ -131,7 +133,12 @@ def random_program(rng, spec, nsteps, weights=None, nkeys=3, nvals=4):
             pk = rand_pk(cname)
             if any(root(k[0]) == root(cname) and list(k[1]) == pk for k in exists):
                 continue
-            cname = class_of.setdefault((root(cname), tuple(pk)), cname)
+            # W7: within one database transaction a key keeps its class (re-creating it as another class
+            # of the same hierarchy is allowed only after the deletion was committed)
+            prev = class_of.get((root(cname), tuple(pk)))
+            if prev is not None and prev != cname and (root(cname), tuple(pk)) in deleted_uncommitted:
+                cname = prev
+            class_of[(root(cname), tuple(pk))] = cname
             if (root(cname), tuple(pk)) in deleted_unflushed:
                 prog.append(['flush'])
                 deleted_unflushed.clear()
@@ -163,6 +170,7 @@ def random_program(rng, spec, nsteps, weights=None, nkeys=3, nvals=4):
             prog.append(['del', k[0], list(k[1])])
             del exists[k]
             deleted_unflushed.add((root(k[0]), k[1]))
+            deleted_uncommitted.add((root(k[0]), k[1]))
         elif kind == 'setrel':
             cands = [c for c in classes if info[c]['scalar_rels']]
             if not cands:
@@ -185,14 +193,30 @@ def random_program(rng, spec, nsteps, weights=None, nkeys=3, nvals=4):
             if tk is None:
                 continue
             prog.append([kind, k[0], list(k[1]), rel, tk[0], list(tk[1])])
+        elif kind == 'sp_begin':
+            if sp_open[0] == 0:
+                prog.append(['sp_begin'])
+                sp_open[0] = 1
+        elif kind == 'sp_commit':
+            if sp_open[0] == 1:
+                prog.append(['sp_commit'])
+                sp_open[0] = 0
         elif kind == 'rollback':
+            sp_open[0] = 0
             prog.append(['rollback'])
             # shadow of existence is approximate after rollback: drop everything not known committed
             exists = dict(getattr(random_program, '_committed', {})) if False else exists
         else:
+            if kind == 'commit' and sp_open[0]:
+                prog.append(['sp_commit'])
+                sp_open[0] = 0
             prog.append([kind])
             if kind in ('flush', 'commit', 'rollback'):
                 deleted_unflushed.clear()
+            if kind in ('commit', 'rollback'):
+                deleted_uncommitted.clear()
+    if sp_open[0]:
+        prog.append(['sp_commit'])
     prog.append(['commit'])
     return prog
 
